@@ -156,6 +156,86 @@ def work_extract(chunk):
     return col
 
 
+def work_containers(chunk):
+    """the container-level chart data (workflow / product / organization) must be the concatenation of the members' rows"""
+    col = engines.Collector()
+    for length in chunk:
+        seqs_t = list(itertools.product(TS, repeat=length))
+        seqs_r = list(itertools.product(WS, repeat=length))
+        step_t = max(1, len(seqs_t) // 40)
+        step_r = max(1, len(seqs_r) // 40)
+        for a, b in zip(seqs_t[::step_t], seqs_r[::step_r]):
+            for margin in (0.0, 0.5, 1.0, 2.0):
+                for unit in (datetime.timedelta(minutes=1), datetime.timedelta(hours=6)):
+                    t1, t2 = BaseTask("t1", ID="t1"), BaseTask("t2", ID="t2")
+                    t1.state_record_list, t2.state_record_list = list(a), list(reversed(a))
+                    c1 = BaseComponent("c1", ID="c1")
+                    c1.state_record_list = [BaseComponentState(int(x)) for x in a]
+                    w1, w2 = BaseWorker("w1", ID="w1"), BaseWorker("w2", ID="w2")
+                    w1.state_record_list, w2.state_record_list = list(b), list(reversed(b))
+                    f1 = BaseFacility("f1", ID="f1")
+                    f1.state_record_list = [BaseFacilityState(int(x)) for x in b]
+                    wf, pr = BaseWorkflow([t1, t2]), BaseProduct([c1])
+                    from pDESy.model.base_organization import BaseOrganization
+
+                    org = BaseOrganization(team_list=[BaseTeam("tm1", ID="tm1", worker_list=[w1]), BaseTeam("tm2", ID="tm2", worker_list=[w2])],
+                                           workplace_list=[BaseWorkplace("wp", ID="wp", facility_list=[f1])])
+                    col.evaluations += 1
+                    col.checks["c19.container-rows"] += 1
+                    key = ("container", tuple(int(x) for x in a), tuple(int(x) for x in b), margin, str(unit))
+                    col.states.add(hash(key))
+                    col.nontrivial.add(hash(key))
+
+                    def triple(rows_):
+                        return sorted((r["Task"], r["State"], r["Start"], r["Finish"]) for r in rows_)
+
+                    try:
+                        got_wf = wf.create_data_for_gantt_plotly(INIT, unit, finish_margin=margin, view_ready=True)
+                        exp_wf = t1.create_data_for_gantt_plotly(INIT, unit, finish_margin=margin, view_ready=True) + t2.create_data_for_gantt_plotly(INIT, unit, finish_margin=margin, view_ready=True)
+                        got_pr = pr.create_data_for_gantt_plotly(INIT, unit, finish_margin=margin, view_ready=True)
+                        exp_pr = c1.create_data_for_gantt_plotly(INIT, unit, finish_margin=margin, view_ready=True)
+                        got_org = org.create_data_for_gantt_plotly(INIT, unit, finish_margin=margin, view_ready=True, view_absence=True)
+                        exp_org = []
+                        for tm in org.team_list:
+                            exp_org += tm.create_data_for_gantt_plotly(INIT, unit, finish_margin=margin, view_ready=True, view_absence=True)
+                        for wp in org.workplace_list:
+                            exp_org += wp.create_data_for_gantt_plotly(INIT, unit, finish_margin=margin, view_ready=True, view_absence=True)
+                    except Exception as e:
+                        col.violation(viol("C19:container-create_data_for_gantt_plotly-raised:%s" % type(e).__name__, {"kind": "container", "error": repr(e)}))
+                        continue
+                    for nm, g, e_ in (("workflow", got_wf, exp_wf), ("product", got_pr, exp_pr), ("organization", got_org, exp_org)):
+                        if triple(g) != triple(e_):
+                            col.violation(viol("C19:container-gantt-rows-differ-from-members:%s" % nm, {"kind": "container", "container": nm, "margin": margin, "unit": str(unit),
+                                                                                                      "task_log": [int(x) for x in a], "resource_log": [int(x) for x in b],
+                                                                                                      "got": triple(g)[:4], "expected": triple(e_)[:4]}))
+    return col
+
+
+def work_integration(chunk):
+    """set_last_datetime on real results: after simulate (+ remove_absence_time_list) the last logged step must fall on the given date"""
+    col = engines.Collector()
+    from .. import families as F, runner
+
+    last = datetime.datetime(2022, 6, 30, 12, 0, 0)
+    for sp, absence, remove in chunk:
+        m = runner.prepare(sp, {})
+        m.project.simulate(max_time=40, absence_time_list=list(absence))
+        if remove:
+            m.project.remove_absence_time_list()
+        unit = datetime.timedelta(hours=2)
+        init = m.project.set_last_datetime(last, unit_timedelta=unit)
+        nlog = len(m.project.cost_list)
+        col.evaluations += 1
+        col.checks["c19.set_last_datetime-on-results"] += 1
+        key = ("integration", repr(sp["links"]), tuple(absence), remove)
+        col.states.add(hash(key))
+        col.nontrivial.add(hash(key))
+        if nlog >= 1 and init + (nlog - 1) * unit != last:
+            col.violation(viol("C19:set_last_datetime-last-logged-step-not-on-given-date", {"kind": "integration", "spec": sp, "absence": list(absence), "removed": remove, "time": m.project.time, "logged_steps": nlog,
+                                                                                           "last_step_date": str(init + (nlog - 1) * unit), "requested": str(last)}))
+    return col
+
+
 def work_dates(chunk):
     col = engines.Collector()
     for _ in chunk:
@@ -190,12 +270,23 @@ def run(tier, seed):
     ex_items = [(k, n, L) for k in ("task", "component", "worker", "facility") for n, L in (((1, 3), (2, 2), (3, 1)) if tier == "quick" else ((1, 3), (2, 3), (3, 2)))]
     col.merge(engines.fanout(ex_items, work_extract, seed=seed, chunks_per_proc=1))
     col.merge(work_dates([0]))
+    col.merge(engines.fanout(list(range(1, 6 if tier == "quick" else 8)), work_containers, seed=seed, chunks_per_proc=1))
+    from .. import families as F
+
+    integ = []
+    for fl in list(F.flows(3, ("FS", "SS"), (1, 2)))[:: (6 if tier == "quick" else 1)]:
+        sp = F.with_teams(fl, "POOL2")
+        for ab in ((), (1,), (0, 2), (1, 20, 21), (2, 2)):
+            for rm in (False, True):
+                integ.append((sp, ab, rm))
+    col.merge(engines.fanout(integ, work_integration, seed=seed))
     meta = {
         "level": "exploration",
         "rule": "every state sequence of length <= %d over {NONE,READY,WORKING,FINISHED} for tasks and components and of length <= %d over {FREE,WORKING,ABSENCE} for workers and facilities x finish margins "
         "{0,0.5,1}: get_time_list_for_gannt_chart must return exactly the maximal runs (start, length-1+margin); chart rows for unit 1 minute / 1 day (lengths <= 5) must map index k to init+k*unit; every "
         "multiset of <= 3 logs (all sequences up to a length bound) x every time list within {0..3} x every state: extract_* of workflow/product/team/workplace must return exactly the matching objects; "
-        "set_last_datetime for time 1..7 x units x flags x dates; non-trivial = sequences with at least two different states / queries selecting a proper non-empty subset" % (L_t, L_r),
+        "set_last_datetime for time 1..7 x units x flags x dates, and on real results (simulate with absence lists incl. beyond-the-end and duplicated steps, with and without remove_absence_time_list); "
+        "container-level chart data of workflow / product / organization must equal the concatenation of the members' rows for margins {0,0.5,1,2}; non-trivial = sequences with at least two different states / queries selecting a proper non-empty subset" % (L_t, L_r),
         "bounds": {"task_seq_len": L_t, "resource_seq_len": L_r},
         "assumptions": ["set_last_datetime is claimed for time >= 1 (with no simulated step there is no last step)"],
     }
@@ -207,6 +298,10 @@ def replay(v):
     kind = d.get("kind")
     if "extract" in v["sig"]:
         col = work_extract([(kind, len(d["logs"]), max([len(x) for x in d["logs"]] + [1]))])
+    elif "last-logged-step" in v["sig"]:
+        col = work_integration([(d["spec"], tuple(d["absence"]), d["removed"])])
+    elif "container" in v["sig"]:
+        col = work_containers([len(d.get("task_log") or [0])])
     elif "set_last_datetime" in v["sig"]:
         col = work_dates([0])
     else:
